@@ -1,26 +1,51 @@
-"""C04 - Mass leaves only via fixation/loss: frozen and isolated marginals are exact
+"""C04 - mass leaves only via fixation/loss; frozen and isolated marginals exact.
 
-Status: bounded run-time contracts only (props/bounded_C04.py) until the proof obligations of DESIGN.md 7 C04 are added.
+Contracts / lemmas (sidecar):
+  integration_shared.c  compute_dfactor contract: Delta_k w_k = 1 for the trapezoid weights w_k incl. both ends      (lemma.trapezoid-weights)
+                        compute_abc_nobc contract: weighted column sums of the assembled operator vanish              (lemma.column-sums)
+                        => one sweep changes the trapezoid mass of a line only through the absorbing terms, which C02 proves are
+                           added only on the all-zero / all-one corner lines
+  Integration.py        _inject_mutations_{1..5}D: writes exactly at the unit vectors of populations that are neither frozen nor nomut, with
+                        w(e_k) x_k[1] dphi = dt theta0/2; nothing else changes; returns phi
+                        two_pops..five_pops: (exists k: frozen_k and some migration rate into or out of k != 0) <=> ValueError, before any integration
+Frozen / isolated marginals over whole integrations, mass balance per sweep, trapz/remove_pop: bounded driver.
 """
+from vf.core import Task
 from vf.helpers import bounded_tasks
 
 META = dict(
-    level='exploration',
-    expects_obligations=False,
-    explanation='Run-time contracts on the real functions over the bounded domain stated per driver (bounded stand-in; nothing proved).',
-    trusted_base=['oracles of props/bounded_C04.py (independent of dadi: exact rationals, mpmath, dense linear algebra, explicit index loops)'],
-    rule='cases enumerated or sampled as stated in each driver\'s bound; a case is non-trivial unless the driver marks it degenerate; distinct by its key',
+    level='other',
+    explanation='Conservation of one sweep is proved as two lemmas over the verified contracts of compute_dfactor and compute_abc_nobc; the influx '
+                'and the frozen-migration guard are proved on the real Python source for every flag pattern. The finite-sum exchange that turns the '
+                'column-sum lemma into a statement about total mass, and the marginal identities over whole integrations, are checked by the '
+                'bounded driver at 1e-11.',
+    trusted_base=['double = real', 'contracts of integration_shared.c as verified in C02', 'grids start at 0 (weight of index 0 is x[1]/2)', 'vf/polyring.py'],
 )
 
 
 def tasks(tier):
-    return bounded_tasks('C04', tier)
+    ts = [Task('props.C04:t_lemmas', name='C04/conservation-lemmas', timeout=600)]
+    for K in (1, 2, 3, 4, 5):
+        ts.append(Task('props.wire:run', name='C04/wire.inject.%d' % K, fname='c04_inject', kwargs=dict(K=K), timeout=600))
+    for name, K in (('two_pops', 2), ('three_pops', 3), ('four_pops', 4), ('five_pops', 5)):
+        ts.append(Task('props.wire:run', name='C04/wire.frozen-migration.' + name, fname='c04_frozen_migration', kwargs=dict(name=name, K=K), timeout=300))
+    return ts + bounded_tasks('C04', tier)
+
+
+def t_lemmas():
+    from contracts import c_verify as V
+    return V.conservation_lemma() + V.dfactor_weights_lemma()
 
 
 MANIFEST_ENTRY = dict(
-    category='exploration',
-    engine='bounded',
-    technique='bounded run-time contracts on the real functions with independent oracles (stand-in for the contract proofs, never counted as proved)',
-    text='Frozen and isolated marginals, mass balance, mutation silencing and frozen+migration rejection checked to round-off on random 2-5 population cases.',
-    note='bounded: see coverage.bounded.drivers[].bound in the evidence file for the exact domain of every driver',
+    category='other',
+    engine='cvc',
+    technique='lemmas over the verified C contracts (trapezoid weights, vanishing weighted column sums), E2 obligations on the real influx and '
+              'guard code for every flag pattern; bounded marginal / mass-balance checks over whole integrations',
+    text='Proved for all inputs: Delta_k w_k = 1 at every node, and the weighted column sums of the assembled tridiagonal operator vanish, so a '
+         'sweep changes trapezoid mass only through the absorbing terms (placed on the corner lines only, C02); the influx functions write exactly '
+         'at the unit vectors of the mutating populations with w x dphi = dt theta0/2 and nothing else; a frozen population with any migration '
+         'in or out is rejected before integration, in 2-5 populations. Frozen and isolated marginals over whole integrations and the total mass '
+         'balance are bounded run-time checks at 1e-11.',
+    note='the exchange of finite sums (telescoping) and whole-integration identities are not proved; floats as reals',
 )
